@@ -11,7 +11,7 @@ TEXT = ("shared_once_for_compiled / contextual_once_for_compiled: for every prog
         "context, different contexts, none) and instance identity (serial numbers) is compared and judged directly. The dependency notion is the documented one: graph_faithful (C07) relates the built graph to ConfigDep (own arguments incl. calls and fields, carriers of requested tags, dependencies of decorators of carried tags), scope_errors_exact and default_scope_documented are stated over it, and reachability needs no totality assumption (reach_total). Histories include the generated getters (a getter call is judged as the Get it stands for), arg-less decorated services and multi-file distributions. Whole histories (runtime model, any length, any mix of Get / GetInContext / GetTaggedBy / GetTaggedByInContext / GetParam / attached contexts, acyclicity as a rank): shared_once_per_container, shared_first_get_caches, contextual_once_per_context, contexts_are_separate, plain_get_has_fresh_bag — by one induction over the mutually recursive get / resolveArg / resolveArgs / getTagged; the driver executes its scripts through the same step function (Model/History.stepOp).")
 TECHNIQUE = "Lean 4 theorem (exact characterisation of the scope validator through graph reachability) + exhaustive small graphs x scope assignments + runtime model vs probe on Get/GetInContext histories"
 LEAN_PROPS = ["C05"]
-TRUSTED = ["gontainer-helpers/v3 scope resolution and caches are modelled (Model/Runtime.lean), tied by level B", "graph_faithful (model graph = documented relation): checked against the Python oracle"]
+TRUSTED = ["gontainer-helpers/v3 scope resolution and caches are modelled (Model/Runtime.lean), tied by level B", "graph_faithful (C07) proves the built graph equal to the documented relation; the Python oracle judges the implementation against that relation per case"]
 ASSUMPTIONS = []
 
 SCOPES = [None, "shared", "contextual", "non_shared"]
